@@ -770,7 +770,12 @@ impl Ctx {
                 for e in std::fs::read_dir(&src).map_err(|e| format!("install {src:?}: {e}"))?.flatten() {
                     let f = e.file_name().to_string_lossy().to_string();
                     if f.ends_with(".htx") || f.ends_with(".key") || f.ends_with(".val") {
-                        std::fs::copy(e.path(), to.join(&f)).map_err(|e| format!("install copy: {e}"))?;
+                        // "rename": the map gets another name in the work directory (m.htx -> <rename>.htx)
+                        let dst = match op.get("rename").and_then(|r| r.as_str()) {
+                            Some(r) => format!("{}{}", r, &f[f.len() - 4..]),
+                            None => f.clone(),
+                        };
+                        std::fs::copy(e.path(), to.join(&dst)).map_err(|e| format!("install copy: {e}"))?;
                     }
                 }
                 ev.insert("outcome".into(), json!("ok"));
